@@ -20,7 +20,7 @@ Oracle  : linearisability by differential.  The same scenario is executed serial
 """
 from __future__ import annotations
 
-import inspect
+import json
 import os
 import re
 import time as _real_time
@@ -114,7 +114,7 @@ UUID_RE = re.compile(r"[0-9a-f]{8}-[0-9a-f]{4}-[0-9a-f]{4}-[0-9a-f]{4}-[0-9a-f]{
 
 def _gencfg(cfg) -> G.GenCfg:
     return G.GenCfg(kinds={"mark": 4, "quick": 2, "slow": 5, "ova": 1, "ovb": 1, "set": 1, "wait": 4, "block": 2, "watch": 2,
-                           "alarm": 1, "pause": 1, "hold": 1, "blank": 1, "comment": 1, "info": 1},
+                           "alarm": 1, "pause": 1, "hold": 1, "blank": 1, "comment": 1, "info": 1, "stop": 1, "restart": 1},
                     max_depth=cfg["max_depth"], max_top=cfg["max_top"], max_children=3, thresholds=True, base_first="s")
 
 
@@ -151,11 +151,31 @@ def scenarios(draw, cfg):
         for _ in range(draw(st.integers(1, 2))):
             r = draw(st.one_of(request(), st.sampled_from(["Pause", "Hold", "Pause", "Hold", "Stop"]).map(lambda n: {"k": "control", "name": n})))
             if r["k"] != "method":
-                pre_ops.append([draw(st.integers(0, pre - 1)), r])
+                # half of the earlier requests are issued right before the last prefix tick, so that a two-tick command (Stop,
+                # Restart) or a queued Pause/Hold changes the run state in the very tick the request under test races with
+                at = pre - 1 if draw(st.integers(0, 1)) == 0 else draw(st.integers(0, pre - 1))
+                pre_ops.append([at, r])
         pre_ops.sort(key=lambda x: x[0])
     reqs = [draw(request())]
     if draw(st.integers(0, 9)) < 3:
         reqs.append(draw(request()))
+    # family "validity flips across the tick" (a quarter of the scenarios): a control command whose acceptance depends on
+    # the run state, racing with a tick that changes the run state - either the completing tick of a Stop/Restart issued one
+    # tick earlier, or a second control command handled in the same step
+    flip = draw(st.integers(0, 3)) == 0
+    if flip:
+        names = ["Pause", "Hold", "Stop", "Restart", "Start", "Unpause", "Unhold"]
+        reqs = [{"k": "control", "name": draw(st.sampled_from(names))}]
+        how = draw(st.integers(0, 2))
+        if how == 0 and pre > 0:
+            pre_ops = [p for p in pre_ops if p[0] < pre - 1] + [[pre - 1, {"k": "control", "name": draw(st.sampled_from(["Stop", "Stop", "Restart"]))}]]
+        elif how == 1:
+            reqs.insert(0, {"k": "control", "name": draw(st.sampled_from(names))})
+        else:
+            pre_ops = [p for p in pre_ops if p[0] < max(0, pre - 2)]
+            if pre > 1:
+                pre_ops.append([pre - 2, {"k": "control", "name": draw(st.sampled_from(["Pause", "Hold"]))}])
+            reqs.insert(0, {"k": "control", "name": draw(st.sampled_from(["Unpause", "Unhold", "Stop", "Restart"]))})
     scen = {"tree": tree, "traj": traj, "pre": pre, "pre_ops": pre_ops, "reqs": reqs, "post": post}
     # numbers from which the schedules are derived once the step has been profiled
     picks = draw(st.lists(st.tuples(st.integers(0, 4), st.integers(0, 99), st.integers(0, 9999), st.integers(0, 9999),
@@ -164,53 +184,50 @@ def scenarios(draw, cfg):
 
 
 # ---------------------------------------------------------------------------------------------------------------------
-# phases of Engine.tick (derived from the source text of the tree under test, so that line numbers may move)
+# phases of Engine.tick, labelled by the callee the ticking thread has entered (not by the source text of tick, so that
+# a refactoring of tick - locals instead of self.x, reordered or extracted statements - leaves the labels intact)
 # ---------------------------------------------------------------------------------------------------------------------
 
-_KEYS = [("self.uod.hwl.tick()", "pre"), ("self.read_process_image()", "read"), ("with self._lock", "lock-acquire"),
-         ("self.tracking.tick(", "tracking"), ("self.interpreter.tick(", "interpreter"),
-         ("self.update_calculated_tags(", "calc-tags"), ("self._command_manager.tick(", "commands"),
-         ("self.notify_tag_updates()", "notify"), ("self.write_process_image()", "write")]
-_phase_cache: dict = {}
+def _phase_codes() -> dict:
+    from openpectus.engine.command_manager import CommandManager
+    from openpectus.lang.exec.pinterpreter import PInterpreter
+    from openpectus.lang.exec.tracking import Tracking
+    out = {}
+    for cls, name, label in [(Engine, "read_process_image", "read"), (Tracking, "tick", "tracking"),
+                             (PInterpreter, "tick", "interpreter"), (Engine, "update_calculated_tags", "calc-tags"),
+                             (CommandManager, "tick", "commands"), (Engine, "notify_tag_updates", "notify"),
+                             (Engine, "write_process_image", "write")]:
+        code = getattr(getattr(cls, name, None), "__code__", None)
+        if code is not None:       # a renamed callee only loses its label (counted in the classes), never the run
+            out[code] = label
+    return out
 
 
-def _tick_phases():
-    """-> (code object of Engine.tick, {line number: phase label})"""
-    if "v" in _phase_cache:
-        return _phase_cache["v"]
-    src, first = inspect.getsourcelines(Engine.tick)
-    keyline = {}
-    for off, text in enumerate(src):
-        for pat, label in _KEYS:
-            if pat in text and label not in keyline:
-                keyline[label] = first + off
-    missing = [label for _, label in _KEYS if label not in keyline]
-    if missing:
-        raise RuntimeError("C40 harness: Engine.tick no longer contains the calls used to label phases: %r" % missing)
-    order = sorted((ln, label) for label, ln in keyline.items())
-    labels = {}
-    for ln in range(first, first + len(src) + 1):
-        nxt = [label for kl, label in order if kl >= ln]
-        labels[ln] = nxt[0] if nxt else "end"
-    _phase_cache["v"] = (Engine.tick.__code__, labels)
-    return _phase_cache["v"]
+_PHASE_CODES = _phase_codes()
+UNLOCKED_PHASES = ("pre", "read")
+LOCKED_PHASES = {"lock-held", "tracking", "interpreter", "calc-tags", "commands", "notify", "write"}
 
 
-def _make_phase_fn(lock):
-    code, labels = _tick_phases()
+class _PhaseTracker:
+    """phase of the tick = the latest of the phase callees the ticking thread has entered ("pre" before the first one);
+    "lock-held" between taking the lock and the first locked callee; "<phase>(unlocked)" when a callee that belongs to the
+    locked section runs while the ticking thread does not own engine._lock."""
 
-    def phase_fn(frame):
-        f = frame
-        while f is not None:
-            if f.f_code is code:
-                lab = labels.get(f.f_lineno, "end")
-                return lab + ("" if lock.owner == "T" or lab in ("pre", "read", "lock-acquire") else "(unlocked)")
-            f = f.f_back
-        return "outside-tick"
-    return phase_fn
+    def __init__(self, lock):
+        self.lock = lock
+        self.phase = "pre"
 
+    def on_call(self, frame):
+        p = _PHASE_CODES.get(frame.f_code)
+        if p is not None:
+            self.phase = p
 
-LOCKED_PHASES = {"tracking", "interpreter", "calc-tags", "commands", "notify", "write", "end"}
+    def label(self, frame=None):
+        p = self.phase
+        owns = self.lock.owner == "T"
+        if p in UNLOCKED_PHASES:
+            return "lock-held" if owns else p
+        return p if owns else p + "(unlocked)"
 
 
 # ---------------------------------------------------------------------------------------------------------------------
@@ -391,7 +408,8 @@ class Exec:
     def step_sched(self, switches, profile=False):
         self._begin_step()
         prefix = os.path.dirname(os.path.abspath(openpectus.__file__)) + os.sep
-        b = Baton(switches, prefix, phase_fn=_make_phase_fn(self.lock), profile=profile, locks=(self.lock,))
+        tracker = _PhaseTracker(self.lock)
+        b = Baton(switches, prefix, phase_fn=tracker.label, profile=profile, locks=(self.lock,), call_fn=tracker.on_call)
         self.h.events.role = b.me
         b.run(self._tick_fn, lambda: [self.send(m) for m in self.msgs])
         self.h.events.role = lambda: "main"
@@ -532,6 +550,9 @@ class Reference:
         # without any request: what "lost" looks like
         self.none = Exec(scen).prefix().step_serial(["T"]).finish()
         self.none["resp"] = None
+        self.state_changes_in_tick = self.none["after_step"]["state"] != self.state_at_step
+        # is a request accepted in one serial order and rejected in another?
+        self.validity_flips = len({json.dumps([r[0] if r else None for r in o["resp"]]) for _, o in self.serial}) > 1
         # profile of the tick: schedule [] under the scheduler must be the serial order tick-then-requests
         ex = Exec(scen).prefix().step_sched([], profile=True)
         self.n_t = ex.baton.count["T"]
@@ -698,7 +719,8 @@ def _valid_req(r):
         r.get("pref") in ("eligible", "any", "bogus")
 
 
-_KINDS = {"mark", "quick", "slow", "ova", "ovb", "set", "wait", "block", "watch", "alarm", "pause", "hold", "blank", "comment", "info"}
+_KINDS = {"mark", "quick", "slow", "ova", "ovb", "set", "wait", "block", "watch", "alarm", "pause", "hold", "blank", "comment", "info",
+          "stop", "restart"}
 
 
 def _num(x, lo, hi):
@@ -862,6 +884,12 @@ def run_shard(col, cfg):
         ref.selftest_first()
         col.count("scenarios")
         col.count("scenario-state:" + ref.state_at_step[0])
+        for ph in sorted(ref.phase_ranges):
+            col.count("scenario-tick-reaches-phase:" + ph)
+        if ref.state_changes_in_tick:
+            col.count("scenario-run-state-changes-in-the-raced-tick")
+        if ref.validity_flips:
+            col.count("scenario-acceptance-of-a-request-depends-on-the-order")
         scheds = _schedules(ref, picks)
         if cfg.get("exhaustive_every") and counter[0] % cfg["exhaustive_every"] == 0:
             if ref.n_t <= cfg["exhaustive_max_events"]:
